@@ -13,8 +13,9 @@ THEOREMS = ["PotasscoVerif.C12.C12_heap", "PotasscoVerif.C12.C12_redefinition", 
             "PotasscoVerif.C12.C12_elem_add", "PotasscoVerif.C12.C12_elem_redefinition", "PotasscoVerif.C12.C12_elem_new_iff", "PotasscoVerif.C12.C12_set_condition",
             "PotasscoVerif.C12.C12_set_condition_refused", "PotasscoVerif.C12.C12_atom_add", "PotasscoVerif.C12.C12_filter", "PotasscoVerif.C12.C12_update",
             "PotasscoVerif.C12.C12_tables_independent", "PotasscoVerif.C12.C12_visit_sound"]
-PARTIAL = {"C12_refines(elements, atoms)/C12_visit": "table-frame theorems are proved for terms; for elements and atoms, the visit orders and print() the statement is decided by "
-           "correspondence and the Python table oracle"}
+PARTIAL = {"print() / visit order": "that print() re-emits each stored term/atom as the directive it was added with, and the ORDER in which a visitor is shown the items, are decided by "
+           "correspondence (model == code on both visit sequences) and the harness's print check; the SET of items shown is proved (C12_visit_sound/_complete/_only_referenced)",
+           "real memory": "C12_heap is about the model's block account; freed-memory access and leaks of the real class are observed by ASan/LSan on the generated histories"}
 BSIZES = (4096,)
 RULE = ("seeded histories of 5..40 operations over sparse and dense ids 0..8: number/symbol/function/tuple terms (arguments referring to smaller ids, so terms are acyclic), "
         "elements with fixed or deferred conditions, atoms with and without guard (also dangling references), removals, redefinitions in the same and in a later step, "
@@ -22,10 +23,14 @@ RULE = ("seeded histories of 5..40 operations over sparse and dense ids 0..8: nu
 TRUSTED = ["operator new/delete: every allocated block is a fresh block; LSan reports blocks that are still allocated when the store is gone"]
 ASSUMPTIONS = ["term arguments refer to smaller ids (acyclic terms); ids < 2^32"]
 TECHNIQUE = "Lean 4 invariant proof (heap accounting: live blocks = blocks reachable from the tables, for all histories) + lookup frame lemmas + differential correspondence under ASan/LSan + table oracle"
-LEVEL_TEXT = ("C12_heap: after ANY history of adds (all term kinds, elements, atoms), removals, redefinitions, condition updates, filters, step marks and resets the live heap blocks "
-              "are exactly the blocks reachable from the tables (no leak, no double free; nothing live after reset/destruction). C12_term_add/_remove: the term table answers like a "
-              "plain table; C12_redefinition/C12_new_iff: a redefinition is refused exactly when the id is new, and new means in use and not below the last step mark. Tied to the C++ "
-              "by running histories through the real TheoryData under ASan/LSan and comparing every lookup after every op, both visit orders and print(); a Python table is the oracle.")
+LEVEL_TEXT = ("For ALL histories: C12_heap (live blocks == blocks reachable from the tables; nothing after reset); the term table AND the element table behave like plain tables "
+              "(C12_term_add/_remove, C12_elem_add, C12_set_condition(_refused)), redefinition is refused exactly for ids that are new (C12_redefinition, C12_elem_redefinition), "
+              "'new' means in use and not below the last step mark (C12_new_iff, C12_elem_new_iff, C12_update), atoms keep their order, filter removes exactly the matching atoms of "
+              "the current step (C12_atom_add, C12_filter), the three tables are independent (C12_tables_independent). Visiting, for EVERY store and both modes: whatever a fully "
+              "recursive visitor is shown is stored and, in current mode, new (C12_visit_sound); a visit that ends normally has shown every atom of its range and, with every item, "
+              "everything that item refers to (C12_visit_complete); and nothing that is not referred to by an item shown (C12_visit_only_referenced) — the items shown are exactly "
+              "the stored items reachable from the atoms. Tied to the code by running histories through the real TheoryData under ASan/LSan and comparing every lookup after every "
+              "op, both visit sequences and print(); a Python table + reachability oracle written from the statement is the oracle.")
 LEVEL_NOTE = ("Proved about Model/TheoryData.lean (allocation modelled as a counter; operator new/delete trusted); model==code on ~4k (quick) / 100k (thorough) histories. "
               "Real freed-memory access/leaks are observed only by ASan/LSan on those runs. Trusted: Lean kernel+axioms, harness, generator, reference() table.")
 
